@@ -35,6 +35,7 @@ package ringbuffer
 //@   ensures[C16] ret ==> r.writeIndex == (old(r.writeIndex) + 1) % r.size
 //@   ensures[C16] forall p :: 0 <= p && p < len(r.buffer) && p != int(old(r.writeIndex)) ==> r.buffer[p] == old(r.buffer[p])
 //@   ensures[C16] r.readIndex == old(r.readIndex) && r.closed == old(r.closed) && r.size == old(r.size)
+//@   ensures[C16] ret ==> calls(Broadcast) == 1
 //@   modifies r.writeIndex, elems(r.buffer)
 
 //@ func (r *RingBuffer) Close
@@ -43,6 +44,7 @@ package ringbuffer
 //@   ensures[C16] r.closed
 //@   ensures[C16] forall p :: 0 <= p && p < len(r.buffer) ==> r.buffer[p] == nil
 //@   ensures[C16] r.readIndex == old(r.readIndex) && r.writeIndex == old(r.writeIndex)
+//@   ensures[C16] calls(Broadcast) == 1
 //@   modifies r.closed, elems(r.buffer)
 //@   loop 1
 //@     invariant i <= r.size && r.closed && rshape(r)
